@@ -22,7 +22,7 @@ from ..leanio import ModelError
 
 ID = "C11"
 LEVEL = "proof"
-THEOREMS = ["mapPick_max", "mapPick_perm", "freqPick_maxcount", "topo_rows_distinct", "topo_count_correct",
+THEOREMS = ["mapPick_max", "mapCandidates_spec", "mapPick_perm", "freqPick_maxcount", "topo_rows_distinct", "topo_count_correct",
             "topo_counts_sum", "topo_score_is_max", "topo_pointer_attains", "topo_pointers_distinct", "topo_sorted",
             "freqCandidates_maxcount", "archive_is_top_k", "archive_top_ranked", "clampTop_pos"]
 BUDGET = {"quick": 55, "thorough": 420}
@@ -235,10 +235,10 @@ def gen_malformed(rnd, which):
 
 def cases(tier, rnd):
     out = []
-    n = 450 if tier == "quick" else 6000
+    n = 300 if tier == "quick" else 6000
     for i in range(n):
         out.append(gen_synth(rnd, big=(tier == "thorough" and i % 3 == 0)))
-    for i in range(12 if tier == "quick" else 150):
+    for i in range(8 if tier == "quick" else 150):
         out.append(gen_synth(rnd, wide=True))
     for i in range(6 if tier == "quick" else 24):
         out.append(gen_malformed(rnd, ["no-chain-0", "all-empty", "chain-0-empty"][i % 3]))
@@ -602,3 +602,62 @@ def search(ctx, failed_cases, rnd, deadline):
             break
         check(ctx, c)
     ctx.corr_failures.clear()
+
+
+def shrink(failure):
+    """Greedy: drop chains (never chain 0), then entries, then --top-trees values, while an oracle failure with the same
+    signature remains.  Oracle only (no model)."""
+    import copy
+    import time
+    from ..runner import Ctx
+
+    case = failure.get("case")
+    if not isinstance(case, dict) or case.get("kind") not in ("synth", "malformed"):
+        return failure
+    sig = failure.get("signature")
+    t_end = time.time() + 20
+
+    class NoModel:
+        def ask(self, req):
+            raise ModelError("shrink runs without the model")
+
+    def still_fails(c):
+        ctx = Ctx(ID, "quick", 0, NoModel())
+        try:
+            check(ctx, c)
+        except Exception:
+            return None
+        return next((f for f in ctx.oracle_failures if f["signature"] == sig), None)
+
+    best = failure
+    cur = copy.deepcopy(case)
+    changed = True
+    while changed and time.time() < t_end:
+        changed = False
+        cands = []
+        for ci, ch in enumerate(cur["chains"]):
+            if ch["num"] != 0 and len(cur["chains"]) > 1:
+                cands.append(("chain", ci, None))
+            for ei in range(len(ch["entries"])):
+                cands.append(("entry", ci, ei))
+        for ti in range(len(cur["tops"])):
+            if len(cur["tops"]) > 1:
+                cands.append(("top", ti, None))
+        for what, a, b in cands:
+            if time.time() > t_end:
+                break
+            c2 = copy.deepcopy(cur)
+            try:
+                if what == "chain":
+                    del c2["chains"][a]
+                elif what == "entry":
+                    del c2["chains"][a]["entries"][b]
+                else:
+                    del c2["tops"][a]
+            except IndexError:
+                continue
+            f = still_fails(c2)
+            if f is not None:
+                cur, best, changed = c2, f, True
+                break
+    return best
